@@ -59,14 +59,14 @@ def no_fault(s):
 def gen_cases(pid, tier, rng):
     wrappers = ['D'] if pid == "C02" else ['H', 'B', 'HB', 'BB', 'D', 'FB']
     cases = []   # (wrapper, pieces(list of str), sched(list))
-    # thorough: exhaustive to length 4 over the 11 symbols plus a sample of length 5-6 (30000 for the one wrapper of C02, 4000 for
-    # the six of C06) keeps a run at ~10^7 cases, some minutes and < 10 GB; length 5 exhaustively was 6*10^7 cases and 35 GB
+    # thorough: exhaustive to length 4 over the 11 symbols plus a sample of length 5-6 (30000 for the one wrapper of C02, 1500 for
+    # the six of C06, which with 4000 took half an hour and 28 GB); length 5 exhaustively was 6*10^7 cases and 35 GB
     L = 3 if tier == "quick" else 4
     strings = []
     for l in range(0, L + 1):
         strings += [list(t) for t in itertools.product(ALPHA, repeat=l)]
     if tier != "quick":
-        strings += [[rng.choice(ALPHA) for _ in range(rng.choice([5, 5, 6]))] for _ in range(30000 if pid == "C02" else 4000)]
+        strings += [[rng.choice(ALPHA) for _ in range(rng.choice([5, 5, 6]))] for _ in range(30000 if pid == "C02" else 1500)]
     for _ in range(300 if tier == "quick" else 3000):
         n = rng.choice([6, 8, 17, 64, 300, 4096 if tier != "quick" else 1000])
         strings.append([rng.choice(ALPHA + ['b', ' ', '\n', '\0', '\x7f', 'ÿ', ' ', '!', '\t', 'c', 'd', '§', '¼', '¾', 'ç', 'æ', 'þ', '¦', '、', '\u2026']) for _ in range(rng.randint(4, n))])
@@ -75,6 +75,9 @@ def gen_cases(pid, tier, rng):
         for pre in ' !\n\t#~a':
             for pos in range(0, 17):
                 strings.append(list("x" * pos + pre + sp + "y" * (18 - pos)))
+    # every ASCII byte between two letters: exactly five of them are replaced, every other one passes through unchanged
+    for c in range(128):
+        strings.append(['a', chr(c), 'b'])
     for chars in strings:
         text = ''.join(chars)
         nb = len(html.escape(text).encode())
@@ -83,7 +86,7 @@ def gen_cases(pid, tier, rng):
             scheds = schedules_for(nb, rng, tier, pid)
             if len(chars) == 3: scheds = rng.sample(scheds, min(len(scheds), 60 if tier == "quick" else 400))
         else:
-            scheds = [[]] + rng.sample(schedules_for(nb, rng, tier, pid), 12 if tier == "quick" else (40 if pid == "C02" else 24))
+            scheds = [[]] + rng.sample(schedules_for(nb, rng, tier, pid), 12 if tier == "quick" else (40 if pid == "C02" else 16))
             scheds += [['a1'] * off + ['f9'] for off in rng.sample(range(nb + 1), min(nb + 1, 6))]
         for w in wrappers:
             for ps in (chs if w in ('D', 'H') else chs[:2]):
